@@ -117,8 +117,27 @@ func readOnlyCalls(v interface{}) []string {
 		if m.Type.NumIn() == 1 {
 			names = append(names, m.Name)
 		}
+		// comparisons (Equals(other), Equal(other)): read-only operations with one argument of
+		// the receiver's own type; they are called with the shared value itself as argument
+		if m.Type.NumIn() == 2 && selfArg(rv, m.Type.In(1)).IsValid() {
+			names = append(names, m.Name+"@self")
+		}
 	}
 	return names
+}
+
+// selfArg converts the shared value to the parameter type want (T, *T), or returns the zero Value
+func selfArg(rv reflect.Value, want reflect.Type) reflect.Value {
+	if rv.Type() == want {
+		return rv
+	}
+	if rv.Kind() == reflect.Ptr && !rv.IsNil() && rv.Type().Elem() == want {
+		return rv.Elem()
+	}
+	if want.Kind() == reflect.Ptr && want.Elem() == rv.Type() && rv.CanAddr() {
+		return rv.Addr()
+	}
+	return reflect.Value{}
 }
 
 func callRendered(v interface{}, name string) (out string) {
@@ -127,7 +146,13 @@ func callRendered(v interface{}, name string) (out string) {
 			out = "panic"
 		}
 	}()
-	res := reflect.ValueOf(v).MethodByName(name).Call(nil)
+	var args []reflect.Value
+	if strings.HasSuffix(name, "@self") {
+		name = strings.TrimSuffix(name, "@self")
+		m := reflect.ValueOf(v).MethodByName(name)
+		args = []reflect.Value{selfArg(reflect.ValueOf(v), m.Type().In(0))}
+	}
+	res := reflect.ValueOf(v).MethodByName(name).Call(args)
 	var sb strings.Builder
 	for _, o := range res {
 		render(&sb, o, 0)
